@@ -10,13 +10,13 @@ package main
 //               a state where the current token is already the first token of a fresh line
 
 import (
-	"os"
 	"fmt"
 	"go/ast"
 	"go/constant"
 	"go/token"
 	"go/types"
 	"golang.org/x/tools/go/ssa"
+	"os"
 	"sort"
 	"strings"
 )
@@ -115,8 +115,8 @@ func pClone(in []*pState) []*pState {
 }
 
 type parseInterp struct {
-	callPos []string
-	nBlank int
+	callPos  []string
+	nBlank   int
 	curField string // name of the parser field that holds the current token (role: the Token-typed field)
 	kindEnv  []map[types.Object][]int
 	// kinds of call arguments that depend on the path (a local kind variable): set while the call is
